@@ -69,6 +69,47 @@ func c09Resolve(c *core.Ctx) {
 			down = true
 		}
 	})
+	if !down {
+		// the search may live in a helper that is handed the requested position
+		for _, call := range an.AllCalls(fn, false) {
+			g := call.Common().StaticCallee()
+			if g == nil || len(g.Blocks) == 0 || !core.InModule(g) {
+				continue
+			}
+			fromReq := map[ssa.Value]bool{}
+			for i, a := range call.Common().Args {
+				if i < len(g.Params) && an.MentionsValue(a, idx) {
+					fromReq[g.Params[i]] = true
+				}
+			}
+			if len(fromReq) == 0 || !an.MentionsValue(anyResultUsedFor(fn, call), call.Value()) {
+				continue
+			}
+			an.Instrs(g, func(in ssa.Instruction) {
+				p, isP := in.(*ssa.Phi)
+				if !isP || len(p.Edges) != 2 {
+					return
+				}
+				fromIdx, dec := false, false
+				for _, e := range p.Edges {
+					if bo, isB := e.(*ssa.BinOp); isB {
+						k, isK := an.ConstInt(bo.Y)
+						if bo.X == ssa.Value(p) && isK && ((bo.Op == token.SUB && k > 0) || (bo.Op == token.ADD && k < 0)) {
+							dec = true
+							continue
+						}
+					}
+					if an.Mentions(e, func(x ssa.Value) bool { return fromReq[x] }) {
+						fromIdx = true
+					}
+				}
+				if fromIdx && dec {
+					down = true
+					c.Touch(g)
+				}
+			})
+		}
+	}
 	c.Result(down, "C09.f", "TAINT", "ResolveFiles:nearest-preceding-full", c.P.Pos(fn.Pos()),
 		"the full snapshot is searched downwards from the requested position (nearest preceding full)",
 		"ResolveFiles no longer searches downwards from the requested snapshot for its full snapshot: an incremental snapshot can be resolved against a full snapshot that is not the one it was cut from", nil)
@@ -134,4 +175,9 @@ func isRestoredSnapshotIndex(fn *ssa.Function, v ssa.Value, depth int) bool {
 		return yes && !bad
 	}
 	return false
+}
+
+// anyResultUsedFor: the value of call itself (helper returning the index).
+func anyResultUsedFor(fn *ssa.Function, call ssa.CallInstruction) ssa.Value {
+	return call.Value()
 }
